@@ -20,6 +20,12 @@ import os
 OWN_PID = os.getpid()      # the interpreter that imported psutil (workers are forked from it)
 
 
+# process names (comm) that make "pid (name) state ..." ambiguous to a careless parser: parentheses, ") " / " (" inside the name, digits and
+# state letters after a ")", a name that is only brackets or blanks, a newline, a non-UTF-8 byte; all within the kernel's 15 bytes
+COMMS = (b"x) y", b"a b) c", b"web) 1 2", b"a) b) c", b"(sd-pam)", b"foo bar )", b") (", b"(", b")", b" ", b") S 1 2 3",
+         b"1 (2) R 0", b"a)\nb", b"q) \xff", b"((x)) ) )")
+
+
 def mk_cfg(ctx, variant="main"):
     acts = pm.ACTIONS if ctx.thorough else pm.ACTIONS[:7]
     if variant == "main":
@@ -47,6 +53,11 @@ def mk_cfg(ctx, variant="main"):
         # the recyclable pid is the pid of the interpreter that imported psutil (state captured at import, then fork)
         return pm.Cfg(seed=ctx.seed, slots=("A",), max_objs=1, actions=acts[:4], clock=False, queries=("name",), numeric=False,
                       use_iter=False, own_pid=OWN_PID if OWN_PID < 2 ** 22 else None)
+    if variant.startswith("comm"):
+        # every owner of the recyclable pid carries ONE name of the hostile-name alphabet COMMS (kernel: any bytes, at most 15):
+        # the identity psutil reads from /proc/<pid>/stat must not depend on what the name looks like
+        return pm.Cfg(seed=ctx.seed, slots=("A",), max_objs=1, actions=("kill", "nice5", "rlimit", "aff0", "ionice"), clock=False,
+                      queries=("name",), numeric=False, use_iter=False, use_exit=False, comm={"A": COMMS[int(variant[4:])]})
     raise AssertionError(variant)
 
 
@@ -122,8 +133,9 @@ def run(ctx):
     global _CFG
     extra = {}
     extra_viols = []
-    for variant, d in (("popen", 7 if ctx.thorough else 6), ("ownpid", 7 if ctx.thorough else 6), ("iterfault", 8 if ctx.thorough else 7),
-                       ("clock", 9 if ctx.thorough else 8), ("midact", 4 if ctx.thorough else 3)):
+    for variant, d in ((("popen", 7 if ctx.thorough else 6), ("ownpid", 7 if ctx.thorough else 6), ("iterfault", 8 if ctx.thorough else 7),
+                       ("clock", 9 if ctx.thorough else 8), ("midact", 4 if ctx.thorough else 3))
+                      + tuple(("comm%d" % i, 7 if ctx.thorough else 6) for i in range(len(COMMS)))):
         if ctx.alt:
             continue          # (second pass with procfs mounted elsewhere: the main variant, two events shorter)
         _CFG = mk_cfg(ctx, variant)
